@@ -111,11 +111,50 @@ package keeper
 //@ ensures  has(Store_oracle, types.ResultStoreKey(reqID))
 //@ ensures  forall q Bz :: q != types.ResultStoreKey(reqID) && q != types.SigningResultStoreKey(reqID) ==> Store_oracle[q] == old(Store_oracle)[q]
 
-//@ func (k Keeper) ProcessExpiredRequests
+// deleting a request's reports removes report records of THAT request only (iterator + delete loops: body not verified)
+//@ func (k Keeper) DeleteReports
 //@ trusted
 //@ modifies Store_oracle
+//@ ensures forall q Bz :: !(iskey(types.ReportsOfValidatorPrefixKey, q) && keyarg(types.ReportsOfValidatorPrefixKey, q, 0) == rid) ==> Store_oracle[q] == old(Store_oracle)[q]
+
+//@ spec lastExpired(s Store) Int = u64of(s[types.RequestLastExpiredStoreKey])
+//@ spec reqCount(s Store) Int = u64of(s[types.RequestCountStoreKey])
+// C01 / C15: expiry walks the request ids after the cursor in order and stops at the first request that is not yet
+// expired. Every request it passes ends up WITH a result (EXPIRED if it had none - an existing result is never
+// replaced) and WITHOUT its request record; the cursor ends on the last request passed; requests beyond the cursor,
+// the pending list and all earlier results are untouched.
+// store invariant of the request id space: both counters are stored as 8 bytes, the expiry cursor is not past the
+// request count, and every request after the cursor still has its record
+//@ spec wfRequests(s Store) Bool = len(s[types.RequestLastExpiredStoreKey]) == 8 && len(s[types.RequestCountStoreKey]) == 8
+//@      && reqCount(s) < MaxUint64 && lastExpired(s) <= reqCount(s)
+//@      && (forall id Int :: lastExpired(s) < id && id <= reqCount(s) ==> has(s, types.RequestStoreKey(id)))
+//@ func (k Keeper) ProcessExpiredRequests
+//@ modifies Store_oracle, Other
+//@ requires wfRequests(Store_oracle)
+//@ ensures  wfRequests(Store_oracle)
 //@ ensures  Store_oracle[types.PendingResolveListStoreKey] == old(Store_oracle)[types.PendingResolveListStoreKey]
 //@ ensures  forall id Int :: old(has(Store_oracle, types.ResultStoreKey(id))) ==> Store_oracle[types.ResultStoreKey(id)] == old(Store_oracle)[types.ResultStoreKey(id)]
+//@ ensures  old(lastExpired(Store_oracle)) <= lastExpired(Store_oracle) && lastExpired(Store_oracle) <= old(reqCount(Store_oracle))
+//@ ensures  forall id Int :: old(lastExpired(Store_oracle)) < id && id <= lastExpired(Store_oracle) ==> has(Store_oracle, types.ResultStoreKey(id)) && !has(Store_oracle, types.RequestStoreKey(id))
+//@ ensures  forall id Int :: id > lastExpired(Store_oracle) ==> Store_oracle[types.RequestStoreKey(id)] == old(Store_oracle)[types.RequestStoreKey(id)] && Store_oracle[types.ResultStoreKey(id)] == old(Store_oracle)[types.ResultStoreKey(id)]
+// ... and only requests whose expiration height has been reached are passed; the walk stops at the first one that has not
+//@ ensures  forall id Int :: old(lastExpired(Store_oracle)) < id && id <= lastExpired(Store_oracle) ==> wrap64(old(oreqAt(Store_oracle, id)).RequestHeight + wrap64(old(oracleParams(Store_oracle)).ExpirationBlockCount)) <= ctx.BlockHeight()
+//@ ensures  lastExpired(Store_oracle) < old(reqCount(Store_oracle)) ==> (let id = lastExpired(Store_oracle) + 1 in wrap64(old(oreqAt(Store_oracle, id)).RequestHeight + wrap64(old(oracleParams(Store_oracle)).ExpirationBlockCount)) > ctx.BlockHeight())
+//@ loop 0: invariant forall id Int :: old(lastExpired(Store_oracle)) < id && id < currentReqID ==> wrap64(old(oreqAt(Store_oracle, id)).RequestHeight + wrap64(old(oracleParams(Store_oracle)).ExpirationBlockCount)) <= ctx.BlockHeight()
+//@ loop 0: invariant expirationBlockCount == wrap64(old(oracleParams(Store_oracle)).ExpirationBlockCount)
+//@ loop 0: invariant old(lastExpired(Store_oracle)) + 1 <= currentReqID && currentReqID <= lastReqID + 1 && lastReqID == old(reqCount(Store_oracle)) && lastReqID < MaxUint64
+//@ loop 0: invariant lastExpired(Store_oracle) == currentReqID - 1 && len(Store_oracle[types.RequestLastExpiredStoreKey]) == 8 && Store_oracle[types.RequestCountStoreKey] == old(Store_oracle)[types.RequestCountStoreKey]
+//@ loop 0: invariant Store_oracle[types.PendingResolveListStoreKey] == old(Store_oracle)[types.PendingResolveListStoreKey]
+//@ loop 0: invariant forall id Int :: old(has(Store_oracle, types.ResultStoreKey(id))) ==> Store_oracle[types.ResultStoreKey(id)] == old(Store_oracle)[types.ResultStoreKey(id)]
+//@ loop 0: invariant forall id Int :: old(lastExpired(Store_oracle)) < id && id < currentReqID ==> has(Store_oracle, types.ResultStoreKey(id)) && !has(Store_oracle, types.RequestStoreKey(id))
+//@ loop 0: invariant forall id Int :: id >= currentReqID ==> Store_oracle[types.RequestStoreKey(id)] == old(Store_oracle)[types.RequestStoreKey(id)] && Store_oracle[types.ResultStoreKey(id)] == old(Store_oracle)[types.ResultStoreKey(id)]
+//@ loop 1: invariant lastExpired(Store_oracle) == currentReqID - 1 && len(Store_oracle[types.RequestLastExpiredStoreKey]) == 8 && Store_oracle[types.RequestCountStoreKey] == old(Store_oracle)[types.RequestCountStoreKey]
+//@ loop 1: invariant has(Store_oracle, types.RequestStoreKey(currentReqID))
+//@ loop 1: invariant Store_oracle[types.PendingResolveListStoreKey] == old(Store_oracle)[types.PendingResolveListStoreKey]
+//@ loop 1: invariant forall id Int :: old(has(Store_oracle, types.ResultStoreKey(id))) ==> Store_oracle[types.ResultStoreKey(id)] == old(Store_oracle)[types.ResultStoreKey(id)]
+//@ loop 1: invariant forall id Int :: old(lastExpired(Store_oracle)) < id && id < currentReqID ==> has(Store_oracle, types.ResultStoreKey(id)) && !has(Store_oracle, types.RequestStoreKey(id))
+//@ loop 1: invariant forall id Int :: id > currentReqID ==> Store_oracle[types.RequestStoreKey(id)] == old(Store_oracle)[types.RequestStoreKey(id)] && Store_oracle[types.ResultStoreKey(id)] == old(Store_oracle)[types.ResultStoreKey(id)]
+//@ loop 1: invariant has(Store_oracle, types.ResultStoreKey(currentReqID))
 
 // assumption (economic bound): a validator's bonded tokens fit in a uint64 (total supply < 2^64)
 //@ axiom tokensFit: forall v stakingtypes.ValidatorI :: 0 <= ext("ValidatorI.GetTokens", v) && ext("ValidatorI.GetTokens", v) <= MaxUint64
@@ -176,3 +215,28 @@ package keeper
 //@ ensures err != nil ==> Bank == old(Bank)
 //@ ensures (exists j :: 0 <= j && j < len(coll.collected) && coll.collected[j].Amount > ext("Coins.AmountOf", coll.limit, coll.collected[j].Denom)) ==> err != nil
 //@ loop 0: invariant forall j :: 0 <= j && j < #i ==> coll.collected[j].Amount <= ext("Coins.AmountOf", coll.limit, coll.collected[j].Denom)
+
+// ---- C02 / C05 / C13: best-effort signing request at the end of a block -----------------------------------------
+// The request for a signature over an oracle result runs in its own cache context and behind a recover: whatever
+// goes wrong in it - an error or a panic - the end-blocker continues, and NOTHING of the failed attempt persists
+// (no fee taken, no nonce consumed, no bandtss/tss state written).
+//@ func (k Keeper) safeCreateSigning
+//@ modifies Bank, Other
+//@ ensures err != nil ==> Bank == old(Bank) && Other == old(Other)
+
+// ---- C01: what a result says ---------------------------------------------------------------------------------
+//@ spec oreqAt(s Store, id Int) types.Request = dec(types.Request, s[types.RequestStoreKey(id)])
+//@ spec resultAt(s Store, id Int) types.Result = dec(types.Result, s[types.ResultStoreKey(id)])
+// The saved result mirrors the request as stored and the reports present at this moment: client id, oracle script,
+// calldata, ask count (= number of requested validators), min count, request id, answer count (= number of reports
+// stored for the request), request time; the resolve time is the block time; status and result bytes are the given
+// ones. Nothing but this request's result record is written in the oracle store.
+//@ func (k Keeper) SaveResult
+//@ modifies Store_oracle, Other
+//@ requires has(Store_oracle, types.RequestStoreKey(id))
+//@ ensures (let r = old(oreqAt(Store_oracle, id)) in let x = resultAt(Store_oracle, id) in
+//@      has(Store_oracle, types.ResultStoreKey(id)) && x.ClientID == r.ClientID && x.OracleScriptID == r.OracleScriptID && x.Calldata == r.Calldata
+//@      && x.AskCount == len(r.RequestedValidators) && x.MinCount == r.MinCount && x.RequestID == id
+//@      && x.AnsCount == old(pcount(Store_oracle, types.ReportStoreKey(id))) && x.RequestTime == r.RequestTime
+//@      && x.ResolveTime == ctx.BlockTime().Unix() && x.ResolveStatus == status && x.Result == result)
+//@ ensures forall q Bz :: q != types.ResultStoreKey(id) ==> Store_oracle[q] == old(Store_oracle)[q]
